@@ -10,7 +10,7 @@ FUNCS_NAMED = [("fn", "1"), ("fn", "10"), ("fn1", "0")]   # fn#10 has no local v
 FUNCS_DEFAULT = [("dfn", "1"), ("dfn1", "0"), ("dg", "2")]
 NARGS = 3
 VALKEYS = ["s0", "s1", "num", "none", "k3", "k6", "lst", "dct", "df", "arr", "k3b", "true", "flt", "part",
-           "part2", "arr6", "df6", "exc", "exc", "part3"]
+           "part2", "arr6", "df6", "exc", "exc", "part3", "partm"]
 OVERRIDES = [None, None, None, "ovr/shared", "ovr/other", "ovr/k#1"]  # (a key may contain the character that separates key and version)
 META_KEYS = ["log", "k2", ""]  # (the empty key is a key like any other)
 
@@ -32,6 +32,9 @@ def values():
         "part2": lambda: _partition({"a": 1, "z": "other"}),
         # a partition with the same value under several of its keys
         "part3": lambda: _partition({"p": "dup-value", "q": "dup-value", "r": [7, 8], "s": [7, 8], "t": None}),
+        # a partition that inherits the entries of another one (its merge parent, stored through the same backend right
+        # before it): as a value it is the overlay; apply_backend builds the real thing
+        "partm": lambda: _partition({"a": 1, "z": "other", "b": 3, "c": [4]}),
         # a recorded failure (stored like a value: calls that failed alike share the stored object)
         "exc": _failure(),
         # one value per call, never produced by any other call
@@ -274,6 +277,13 @@ def apply_backend(backend, refs, vals, op, model_before=None):
         if k == "memoize":
             _, f, a, vk, ovr = op
             v = val(vals, vk)
+            if vk == "partm" and not getattr(backend, "read_only", False):
+                # the parent is memoized as the result of the same call first (the child then replaces it): a partition that
+                # has been stored can be merged with
+                parent = _partition({"a": 1, "z": "other", "b": "parent's"})
+                backend.memoize(None, refs.memento(f, a, parent), parent)
+                v = _partition({"b": 3, "c": [4]})
+                v._merge_parent = parent
             m = refs.memento(f, a, v)
             backend.memoize(ovr, m, v)
             if not getattr(backend, "read_only", False):  # (a read-only backend skips the write: nothing to read through m)
